@@ -139,7 +139,9 @@ func (o *rx) Evaluate(tx plugintypes.TransactionState, value string) bool {
 	// Gap 2: exact-match bypass for patterns like ^Upload$ — skip the NFA entirely.
 	// The \n guard protects against multi-line inputs where (?m)$ matches
 	// before a newline (e.g. "Upload\nmore" would satisfy (?sm)^Upload$).
-	if o.exactMatch != "" && !strings.ContainsRune(value, '\n') {
+	// The bypass produces no capture groups, so it is only taken when the rule does not capture
+	// (otherwise TX.0-9 would differ from what the same rule yields without the prefilter).
+	if o.exactMatch != "" && !tx.Capturing() && !strings.ContainsRune(value, '\n') {
 		if o.exactMatchCI {
 			return strings.EqualFold(value, o.exactMatch)
 		}
